@@ -1,10 +1,10 @@
 #!/bin/bash
-# usage: scripts/seed_eval.sh <Cxx> [worktree]
+# usage: scripts/seed_eval.sh <Cxx> [worktree] [seed-subdir] [name under /verif/seeded]
 # 1. confirms a sub-agent's seeded change in its scratch worktree: compiles, suite passes with it,
 #    demo fails with it and passes without it;  2. copies it to /verif/seeded/<id>/;
 # 3. applies it to /repo, runs ./check <id> (and all properties), restores /repo.
 set -u
-id="$1"; wt="${2:-/tmp/wt/$id}"; seed="$wt/seed"
+id="$1"; wt="${2:-/tmp/wt/$id}"; seed="$wt/seed${3:+/$3}"; name="${4:-$id}"
 export GOFLAGS=-mod=mod GOPROXY=off GOSUMDB=off GOTOOLCHAIN=local GOWORK=off
 cd "$wt" || exit 2
 [ -f "$seed/patch.diff" ] || { echo "no patch"; exit 2; }
@@ -26,13 +26,13 @@ go test -vet=off -count=1 -run 'Seed|seed|ZZ' "./$(dirname "$target")" 2>&1 | ta
 r_with=${PIPESTATUS[0]}
 rm -f "$target"
 echo "== with change: existing suite"
-mv "$seed" /tmp/seed.$$.hold  # keep the demo copy out of ./...
-out=$(go test -vet=off -count=1 ./... 2>&1); mv /tmp/seed.$$.hold "$seed"; echo "$out" | grep -E '^(--- FAIL|FAIL)' | grep -v 'TestEnum_String' | grep -v '^FAIL$' | grep -v 'ischema/constraint' ; suite_bad=$(echo "$out" | grep -E '^--- FAIL' | grep -vc 'TestEnum_String')
+mv "$wt/seed" /tmp/seed.$$.hold  # keep the demo copy out of ./...
+out=$(go test -vet=off -count=1 ./... 2>&1); mv /tmp/seed.$$.hold "$wt/seed"; echo "$out" | grep -E '^(--- FAIL|FAIL)' | grep -v 'TestEnum_String' | grep -v '^FAIL$' | grep -v 'ischema/constraint' ; suite_bad=$(echo "$out" | grep -E '^--- FAIL' | grep -vc 'TestEnum_String')
 git checkout -q -- .
 echo "RESULT $id: demo_without_rc=$r_without demo_with_rc=$r_with suite_new_failures=$suite_bad"
 if [ "$r_without" = 0 ] && [ "$r_with" != 0 ] && [ "$suite_bad" = 0 ]; then
-  mkdir -p "/verif/seeded/$id"; cp "$seed"/patch.diff "$seed"/meta.json "$demo" "/verif/seeded/$id/"
-  echo "CONFIRMED -> /verif/seeded/$id"
+  mkdir -p "/verif/seeded/$name"; cp "$seed"/patch.diff "$seed"/meta.json "$demo" "/verif/seeded/$name/"
+  echo "CONFIRMED -> /verif/seeded/$name"
 else
   echo "NOT CONFIRMED"; exit 1
 fi
